@@ -471,7 +471,12 @@ def carrier_events(ctx, ev, blobs, env, alg):
         body0 = build.read_packets(p0)[0][1]
         nbits = len(p0) * 8
         variants = [('unmodified (revoked verifier)', p0, doc0), ('other document (revoked verifier)', p0, doc0 + b'!'), ('signature of another key (revoked verifier)', other_sig, doc0)]
-        for b in sorted(ctx.rng.sample(range((len(p0) - 24) * 8, nbits), 12)) + sorted(ctx.rng.sample(range(16, (len(p0) - 24) * 8), 12)):
+        # bits of what IS signed or IS the signature value: type / algorithm / hash octets, the hashed area with its length, the last octets of
+        # the signature integers (the unhashed area, the left 16 bits and the integer length prefixes are not covered by a signature: the
+        # neutral-field classes above deal with them)
+        hl_ = (body0[4] << 8) | body0[5]
+        sem_lo, sem_hi = (len(p0) - len(body0) + 1) * 8, (len(p0) - len(body0) + 6 + hl_) * 8
+        for b in sorted(ctx.rng.sample(range((len(p0) - 20) * 8, nbits), 12)) + sorted(ctx.rng.sample(range(sem_lo, sem_hi), 12)):
             m = bytearray(p0)
             m[b // 8] ^= 1 << (b % 8)
             variants.append(('signature bit %d (revoked verifier)' % b, bytes(m), doc0))
